@@ -54,6 +54,12 @@ def step (st : St) (op : List String) : St × String :=
       | none => (st, "bad-op")
     | ["sweep"] | ["sweep", "fail"] =>
       ({ st with s := Aurora.Blocker.step T s .sweep }, "blocked " ++ joinOr (sortStr (sweepOut s)))
+    | ["sweep", "race"] =>
+      -- the sweep with `Unflag` calls of all other flagged peers racing against it: the sweep runs under `mu`, so they
+      -- take effect after it (only if the sweep blocklisted somebody: the race is started from its first Blocklist call)
+      let s1 := Aurora.Blocker.step T s .sweep
+      let s2 := if (sweepOut s).isEmpty then s1 else s1.flags.foldl (fun acc p => Aurora.Blocker.step T acc (.unflag p.1)) s1
+      ({ st with s := s2 }, "blocked " ++ joinOr (sortStr (sweepOut s)))
     | ["dump"] =>
       (st, s!"seq={s.seq} flags=" ++ joinOr (sortStr (s.flags.map (fun p => s!"{p.1}:{p.2}"))))
     | _ => (st, "bad-op")
